@@ -6,6 +6,8 @@
  * the simulator's own watchdog reads CLOCK_MONOTONIC_RAW. */
 #define _GNU_SOURCE
 #include <dlfcn.h>
+#include <pthread.h>
+#include <stdlib.h>
 #include <stdint.h>
 #include <time.h>
 #include <sys/time.h>
@@ -45,4 +47,65 @@ time_t time(time_t *out) {
     clock_gettime(CLOCK_REALTIME, &ts);
     if (out) *out = ts.tv_sec;
     return ts.tv_sec;
+}
+
+
+/* ------------------------------------------------------------------------------------------
+ * Thread-creation seam. Threads that the LIBRARY starts inside a call (helper threads, a lazily
+ * started background worker) are a source of nondeterminism the simulator must own: the shim
+ * interposes pthread_create, asks the simulator (on_create, in the creating thread) whether the
+ * new thread belongs to a simulated run, and if so wraps its start routine: child_start runs in
+ * the new thread before any user code (it registers the thread and blocks until the scheduler
+ * hands it the baton), child_exit after the user code returned. The simulator's own threads are
+ * created with the callbacks switched off by the creating thread (on_create returns -1). */
+typedef int64_t (*a5sim_on_create_t)(void);
+typedef void (*a5sim_child_t)(int64_t);
+static a5sim_on_create_t cb_on_create = 0;
+static a5sim_child_t cb_child_start = 0;
+static a5sim_child_t cb_child_exit = 0;
+static int (*real_pthread_create)(pthread_t *, const pthread_attr_t *, void *(*)(void *), void *) = 0;
+
+void a5sim_set_thread_callbacks(a5sim_on_create_t on_create, a5sim_child_t child_start, a5sim_child_t child_exit) {
+    cb_child_start = child_start;
+    cb_child_exit = child_exit;
+    __atomic_store_n(&cb_on_create, on_create, __ATOMIC_SEQ_CST);
+}
+
+struct a5sim_wrap {
+    void *(*start)(void *);
+    void *arg;
+    int64_t token;
+};
+
+static void *a5sim_trampoline(void *p) {
+    struct a5sim_wrap w = *(struct a5sim_wrap *)p;
+    free(p);
+    if (cb_child_start) cb_child_start(w.token);
+    void *r = w.start(w.arg);
+    if (cb_child_exit) cb_child_exit(w.token);
+    return r;
+}
+
+int pthread_create(pthread_t *thread, const pthread_attr_t *attr, void *(*start)(void *), void *arg) {
+    if (!real_pthread_create)
+        real_pthread_create = (int (*)(pthread_t *, const pthread_attr_t *, void *(*)(void *), void *))dlsym(RTLD_NEXT, "pthread_create");
+    a5sim_on_create_t oc = __atomic_load_n(&cb_on_create, __ATOMIC_SEQ_CST);
+    if (oc) {
+        int64_t token = oc();
+        if (token >= 0) {
+            struct a5sim_wrap *w = (struct a5sim_wrap *)malloc(sizeof *w);
+            if (w) {
+                w->start = start;
+                w->arg = arg;
+                w->token = token;
+                int r = real_pthread_create(thread, attr, a5sim_trampoline, w);
+                if (r != 0) {
+                    free(w);
+                    if (cb_child_exit) cb_child_exit(-token - 2); /* creation failed: retire the registration */
+                }
+                return r;
+            }
+        }
+    }
+    return real_pthread_create(thread, attr, start, arg);
 }
